@@ -33,6 +33,41 @@ fn same_day_disposal_quantity(
         .sum()
 }
 
+/// Split/unsplit ratios met while scanning forward from a disposal.
+///
+/// A split rescales holdings after the trades of its own date (that is how the main
+/// pass applies it to the pool), so its effect is held back until the scan moves on to a
+/// later date. This keeps the result independent of the order of same-day lines.
+struct SplitScan {
+    cumulative_ratio_effect: Decimal,
+    pending_effect: Decimal,
+    pending_date: Option<NaiveDate>,
+}
+
+impl SplitScan {
+    fn new() -> Self {
+        Self {
+            cumulative_ratio_effect: Decimal::ONE,
+            pending_effect: Decimal::ONE,
+            pending_date: None,
+        }
+    }
+
+    /// Call for every scanned transaction of the ticker before using the ratio.
+    fn advance_to(&mut self, date: NaiveDate) {
+        if self.pending_date.is_some_and(|pending| date > pending) {
+            self.cumulative_ratio_effect *= self.pending_effect;
+            self.pending_effect = Decimal::ONE;
+            self.pending_date = None;
+        }
+    }
+
+    fn record(&mut self, tx: &GbpTransaction) {
+        apply_split_ratio_effect(&mut self.pending_effect, tx);
+        self.pending_date = Some(tx.date);
+    }
+}
+
 fn apply_split_ratio_effect(cumulative_ratio_effect: &mut Decimal, tx: &GbpTransaction) {
     match &tx.operation {
         Operation::Split { ratio } => {
@@ -58,22 +93,23 @@ pub(super) fn shares_matched_to_later_acquisitions(
     all_transactions: &[GbpTransaction],
     future_consumption: &HashMap<usize, Decimal>,
 ) -> Decimal {
+    let _ = sell_idx;
     let mut total = Decimal::ZERO;
-    let mut cumulative_ratio_effect = Decimal::ONE;
+    let mut splits = SplitScan::new();
+    let day_start = all_transactions.partition_point(|tx| tx.date < sell_tx.date);
 
-    for (idx, tx) in all_transactions.iter().enumerate().skip(sell_idx + 1) {
-        if tx.ticker != sell_tx.ticker || tx.date <= sell_tx.date {
+    for (idx, tx) in all_transactions.iter().enumerate().skip(day_start) {
+        if tx.ticker != sell_tx.ticker {
             continue;
         }
+        splits.advance_to(tx.date);
         match &tx.operation {
-            Operation::Split { .. } | Operation::Unsplit { .. } => {
-                apply_split_ratio_effect(&mut cumulative_ratio_effect, tx);
-            }
-            Operation::Buy { .. } => {
+            Operation::Split { .. } | Operation::Unsplit { .. } => splits.record(tx),
+            Operation::Buy { .. } if tx.date > sell_tx.date => {
                 if let Some(claimed) = future_consumption.get(&idx)
-                    && cumulative_ratio_effect != Decimal::ZERO
+                    && splits.cumulative_ratio_effect != Decimal::ZERO
                 {
-                    total += *claimed / cumulative_ratio_effect;
+                    total += *claimed / splits.cumulative_ratio_effect;
                 }
             }
             _ => {}
@@ -222,11 +258,14 @@ pub fn match_bed_and_breakfast(
         return Ok(results);
     }
 
-    // Track cumulative ratio effect from splits/unsplits between sell and potential buys
-    let mut cumulative_ratio_effect = Decimal::ONE;
+    // Track the ratio effect of splits/unsplits between the sell and potential buys,
+    // starting with those dated on the sell's own day (they follow that day's trades).
+    let _ = sell_idx;
+    let mut splits = SplitScan::new();
+    let day_start = all_transactions.partition_point(|tx| tx.date < sell_tx.date);
 
     // Find transactions after sell date, within B&B window, for same ticker
-    for (idx, tx) in all_transactions.iter().enumerate().skip(sell_idx + 1) {
+    for (idx, tx) in all_transactions.iter().enumerate().skip(day_start) {
         if *remaining <= Decimal::ZERO {
             break;
         }
@@ -238,25 +277,22 @@ pub fn match_bed_and_breakfast(
 
         let days_diff = (tx.date - sell_tx.date).num_days();
 
-        // Must be after sell date
-        if days_diff <= 0 {
-            continue;
-        }
-
         // Must be within B&B window
         if days_diff > BNB_WINDOW_DAYS {
             break;
         }
 
+        splits.advance_to(tx.date);
+        let cumulative_ratio_effect = splits.cumulative_ratio_effect;
+
         match &tx.operation {
-            Operation::Split { .. } | Operation::Unsplit { .. } => {
-                apply_split_ratio_effect(&mut cumulative_ratio_effect, tx);
-            }
+            Operation::Split { .. } | Operation::Unsplit { .. } => splits.record(tx),
+            // Must be after sell date
             Operation::Buy {
                 amount,
                 price,
                 fees,
-            } => {
+            } if days_diff > 0 => {
                 let available_at_buy_time = available_for_bnb_after_reservations(
                     idx,
                     tx,
